@@ -97,6 +97,10 @@ theorem step_consts (kind : Kind) (h : Nat → Nat) (c : Nat × Nat) (s s' : Sta
   case appendAll t => cases hst; exact hc.set t (by rw [appendAll_consts]; exact hg t)
   case removeAll t => cases hst; exact hc.set t (by rw [removeAll_consts]; exact hg t)
   case setValue t k v => cases hst; exact hc.set t (by rw [setValue_consts]; exact hg t)
+  case assignSelf t => cases hst; exact hc
+  case swapSelf t => cases hst; exact hc
+  case appendSelf t => cases hst; exact hc.set t (by rw [appendAll_consts]; exact hg t)
+  case removeSelf t => cases hst; exact hc.set t (by rw [removeAll_consts]; exact hg t)
   case find t k => cases hst; exact hc
   case contains t k => cases hst; exact hc
   case size t => cases hst; exact hc
